@@ -52,7 +52,8 @@ package mysql
 //@   requires nonnil [safety]: c != nil
 //@   requires inv [inv]: clusterInv(c)
 //@   ensures C10.get [C10,C17,C04,C01,C08,C11,C16,C18,C19]: result != nil ==> result.host == host
-//@   ensures C10.get_registered [C10]: result != nil <==> (has(c.haNodes, host) || has(c.cascadeNodes, host))
+//@   ensures C10.get_registered [C10,C20]: result != nil <==> (has(c.haNodes, host) || has(c.cascadeNodes, host))
+//@   ensures C20.get_inv [C20]: result != nil ==> nodeInv(result)
 
 // ---- composite statements (verified against the assumed single-statement contracts) ---------------------
 
@@ -95,3 +96,11 @@ package mysql
 
 //@ func (*mysql.Cluster).Local
 //@   ensures C20.local [C20]: result == c.local
+
+// ---- C20: getters that hand out a pointer together with an error ----------------------------------------------
+//@ func (*mysql.Node).GTIDExecuted
+//@   ensures C20.status_nonnil [C20]: result1 == nil ==> result0 != nil
+//@ func (*mysql.Node).SemiSyncStatus
+//@   ensures C20.status_nonnil [C20]: result1 == nil ==> result0 != nil
+//@ define switchHelperOK(sh *SwitchHelper) = true
+//@ typeinv *mysql.SwitchHelper switchHelperOK init mysql.NewSwitchHelper
